@@ -187,6 +187,26 @@ let step line =
       Printf.printf "K %s %s\n" name (String.concat " " (List.map hex_of_fr (lagrange_all (domain_log (nat n)) (fr tau))))
   | ["K"; name; "vcos"; n; d] ->
       Printf.printf "K %s %s\n" name (String.concat " " (List.map hex_of_fr (vanishing_over_coset (domain_log (nat n)) (nat d))))
+  | "K" :: name :: "mvan" :: n :: d :: evs ->
+      let k = domain_log (nat n) in
+      let size = int_of_nat (domain_size (nat n)) in
+      let evs = List.map fr evs in
+      let ok = int_of_string d < size && List.length evs = size
+               && List.for_all2 (fun a b -> feqb a b) evs (vanishing_over_coset k (nat d)) in
+      Printf.printf "K %s %b\n" name ok
+  | "K" :: name :: "mlin" :: n :: evs ->
+      let k = domain_log (nat n) in
+      let size = int_of_nat (domain_size (nat n)) in
+      let evs = List.map fr evs in
+      let want = List.map (fun x -> fmul coset_gen x) (powers (domain_gen k) (domain_size (nat n))) in
+      Printf.printf "K %s %b\n" name (List.length evs = size && List.for_all2 (fun a b -> feqb a b) evs want)
+  | ["K"; name; "elems"; n] ->
+      let k = domain_log (nat n) in
+      Printf.printf "K %s %s\n" name (String.concat " " (List.map hex_of_fr (powers (domain_gen k) (domain_size (nat n)))))
+  | "K" :: name :: "interp" :: n :: evs ->
+      Printf.printf "K %s %s\n" name (String.concat " " (List.map hex_of_fr (ptrim (ifft (nat n) (List.map fr evs)))))
+  | ["K"; name; "pows"; x; d] ->
+      Printf.printf "K %s %s\n" name (String.concat " " (List.map hex_of_fr (powers (fr x) (nat (string_of_int (int_of_string d + 1))))))
   | ["K"; name; "vanish"; n; tau] ->
       Printf.printf "K %s %s\n" name (hex_of_fr (vanishing_eval (domain_log (nat n)) (fr tau)))
   | "K" :: name :: "bary" :: n :: p :: evs ->
